@@ -148,6 +148,8 @@ GENERATED = [
     ("GenPath.v", "harness.translator", "generate_current"),
     ("GenSched.v", "harness.c17_translator", "translate_current"),
     ("GenNotify.v", "harness.c10_translator", "translate_current"),
+    ("GenEntryPred.v", "harness.entry_translator", "translate_current"),
+    ("GenBackoff.v", "harness.entry_translator", "translate_backoff_current"),
 ]
 GEN_BASELINE = os.path.join(COQ, "gen_baseline")
 
